@@ -3,6 +3,7 @@
 //! one long observed run, then *every* prefix budget max_iter = k, k = 0..K.
 
 use super::sweep::{Judge, Planted};
+use crate::dense::norm2;
 use crate::oracle::*;
 use crate::problem::*;
 use crate::solve::*;
@@ -69,6 +70,17 @@ impl Space for Traj {
         if long.internal_m != p.m {
             return Ok(());
         }
+        if std::env::var("VERIF_DEBUG").is_ok() {
+            eprintln!("status {:?} iterations {}", long.status, long.iterations);
+            for (k, it) in long.iters.iter().enumerate() {
+                let (ms, _) = worst_margin_strict(&p.cones, &it.s, false, &nosk);
+                let (mz, _) = worst_margin_strict(&p.cones, &it.z, true, &nosk);
+                eprintln!("#{:3} iter {:3} alpha {:.6e} tau {:.3e} kappa {:.3e} margin_s {:.3e} margin_z {:.3e}", k, it.iter, it.alpha, it.tau, it.kappa, ms, mz);
+                if std::env::var("VERIF_DEBUG").map(|v| v == "2").unwrap_or(false) {
+                    eprintln!("     s = {:?}\n     z = {:?}", it.s, it.z);
+                }
+            }
+        }
         // ---- interiority of every observed iterate
         let mut prev_iter = 0u32;
         for (k, it) in long.iters.iter().enumerate() {
@@ -88,9 +100,10 @@ impl Space for Traj {
             // data spanning 18 orders of magnitude (loose 1e18 rows) put the rounding of the step computation at
             // about 1e-9 of the iterate; otherwise 1e-12
             let mtol = if self.src.loose_rows { 1e-9 } else { 1e-12 };
-            let (ms, cs) = worst_margin_strict(&p.cones, &it.s, false, &nosk);
+            let prev = if k > 0 { Some(&long.iters[k - 1]) } else { None };
+            let (ms, cs) = worst_margin_step(&p.cones, &it.s, prev.map(|r| &r.s[..]), false);
             ensure!(ms > -mtol, "slack-iterate-outside-cone", "iterate #{} (iter {}): cone #{} ({}) relative margin {:e}, s = {:?}", k, it.iter, cs, p.cones[cs].tag(), ms, it.s);
-            let (mz, cz) = worst_margin_strict(&p.cones, &it.z, true, &nosk);
+            let (mz, cz) = worst_margin_step(&p.cones, &it.z, prev.map(|r| &r.z[..]), true);
             ensure!(mz > -mtol, "dual-iterate-outside-cone", "iterate #{} (iter {}): cone #{} ({}) relative margin {:e}, z = {:?}", k, it.iter, cz, p.cones[cz].tag(), mz, it.z);
             // for the nonnegative cone membership is decided entry by entry without any rounding in the
             // predicate: strict positivity is exact (an entry of exactly 0 makes the NT scaling infinite)
@@ -98,8 +111,10 @@ impl Space for Traj {
             for c in &p.cones {
                 if let ConeSpec::NN(d) = c {
                     for i in off..off + d {
-                        ensure!(it.s[i] > 0.0, "slack-iterate-on-boundary", "iterate #{} (iter {}): s[{}] = {:e} in a nonnegative cone", k, it.iter, i, it.s[i]);
-                        ensure!(it.z[i] > 0.0, "dual-iterate-on-boundary", "iterate #{} (iter {}): z[{}] = {:e} in a nonnegative cone", k, it.iter, i, it.z[i]);
+                        // (an entry that was already below 1e-290 may underflow to zero: floating point, not the step rule)
+                        let under = |f: &dyn Fn(&clarabel::verif_hooks::IterRecord) -> f64| prev.map(|r| f(r).abs() < 1e-290).unwrap_or(false);
+                        ensure!(it.s[i] > 0.0 || under(&|r| r.s[i]), "slack-iterate-on-boundary", "iterate #{} (iter {}): s[{}] = {:e} in a nonnegative cone", k, it.iter, i, it.s[i]);
+                        ensure!(it.z[i] > 0.0 || under(&|r| r.z[i]), "dual-iterate-on-boundary", "iterate #{} (iter {}): z[{}] = {:e} in a nonnegative cone", k, it.iter, i, it.z[i]);
                     }
                 }
                 off += c.numel();
@@ -215,13 +230,38 @@ impl Space for Traj {
     }
 }
 
-/// like oracle::worst_margin but for interior iterates: the zero cone's *primal* iterate is pinned to 0
-fn worst_margin_strict(cones: &[ConeSpec], v: &[f64], dual: bool, skip: &[bool]) -> (f64, usize) {
-    worst_margin(cones, v, dual, skip)
+/// worst cone margin of an iterate, relative to the magnitudes that entered the update that produced it:
+/// v_k = v_{k-1} + alpha dv is rounded relative to max(|v_{k-1}|, |v_k|) per cone block (a step that passes close
+/// to the apex of a cone shrinks the block by orders of magnitude; its rounding error does not shrink with it)
+fn worst_margin_step(cones: &[ConeSpec], v: &[f64], vprev: Option<&[f64]>, dual: bool) -> (f64, usize) {
+    let mut worst = f64::INFINITY;
+    let mut which = 0;
+    let mut off = 0;
+    for (ci, c) in cones.iter().enumerate() {
+        let k = c.numel();
+        if k > 0 {
+            let blk = &v[off..off + k];
+            let mm = if dual { margin_dual(c, blk) } else { margin_primal(c, blk) };
+            let mut scale = f64::max(1.0, norm2(blk));
+            if let Some(pv) = vprev {
+                scale = scale.max(norm2(&pv[off..off + k]));
+            }
+            let m = mm / scale;
+            if m < worst {
+                worst = m;
+                which = ci;
+            }
+        }
+        off += k;
+    }
+    (worst, which)
+}
+fn worst_margin_strict(cones: &[ConeSpec], v: &[f64], dual: bool, _skip: &[bool]) -> (f64, usize) {
+    worst_margin_step(cones, v, None, dual)
 }
 
 pub const ASSUMPTIONS: &[&str] = &[
-    "interiority is judged on the internal (equilibrated) iterates with the textbook predicates and a relative rounding margin of 1e-12 (1e-9 for bases with a 1e18 right-hand side); a one-ulp overshoot is invisible; nonnegative-cone entries must be strictly positive (exact predicate)",
+    "interiority is judged on the internal (equilibrated) iterates with the textbook predicates and a rounding margin of 1e-12 relative to the larger of the block norms before and after the step (1e-9 for bases with a 1e18 right-hand side); a one-ulp overshoot is invisible; nonnegative-cone entries must be strictly positive (exact predicate)",
     "the k-th iterate of a run is the first iterate observed with iteration counter k (a strategy switch re-enters the loop with the same counter)",
     "iterates are observed through the guarded read-only hook in DefaultInfo::update",
 ];
